@@ -22,14 +22,22 @@ def _paths(node, path=()):
         yield p, n
         if isinstance(n, (tuple, list)):
             for i, c in enumerate(n):
-                if isinstance(c, (tuple, list)):
+                if isinstance(c, (tuple, list, dict)):
                     queue.append((p + (i,), c))
+        elif isinstance(n, dict):
+            for k, c in n.items():
+                if isinstance(c, (tuple, list, dict)):
+                    queue.append((p + (k,), c))
 
 
 def _replace(node, path, new):
     if not path:
         return new
     i = path[0]
+    if isinstance(node, dict):
+        d = dict(node)
+        d[i] = _replace(node[i], path[1:], new)
+        return d
     if isinstance(node, tuple):
         return node[:i] + (_replace(node[i], path[1:], new),) + node[i + 1:]
     return node[:i] + [_replace(node[i], path[1:], new)] + node[i + 1:]
@@ -38,6 +46,8 @@ def _replace(node, path, new):
 def _size(node):
     if isinstance(node, (tuple, list)):
         return 1 + sum(_size(c) for c in node)
+    if isinstance(node, dict):
+        return 1 + sum(_size(c) for c in node.values())
     return 1
 
 
